@@ -6,6 +6,8 @@ homomorphism from derivative=True results to derivative=False results.
 import PorepyVerif.C02.Model
 namespace PorepyVerif.C02
 
+variable {P : PowFns}
+
 @[simp] theorem bind_ok {α β : Type} (x : α) (f : α → R β) : (Except.ok x >>= f) = f x := rfl
 @[simp] theorem bind_err {α β : Type} (e : Err) (f : α → R β) : ((Except.error e : R α) >>= f) = Except.error e := rfl
 @[simp] theorem pure_eq_ok {α : Type} (x : α) : (pure x : R α) = Except.ok x := rfl
@@ -36,25 +38,41 @@ theorem gscale_gscale (a b : Rat) (g : List Rat) : gscale a (gscale b g) = gscal
 theorem gscale_map_mul_right (b c : Rat) (g : List Rat) : (gscale b g).map (· * c) = gscale (b * c) g := by
   unfold gscale; rw [List.map_map]; exact map_congr' g (fun x => by simp; grind)
 
-theorem any_not_powOk_neg_one (b : Ad) : b.any (fun u => !powOk u.v (-1 : Rat).num) = hasZero (vals b) := by
+theorem num_neg_one_sub : ((-1 : Rat).num - 1) = -2 := by decide
+theorem isInt_neg_one : isInt (-1) = true := by decide
+theorem num_neg_one : (-1 : Rat).num = -1 := by decide
+
+theorem any_not_powOk_neg_one (b : Ad) : b.any (fun u => !powOk P u.v (-1)) = hasZero (vals b) := by
   unfold hasZero vals
   rw [List.any_map]
   congr 1
   funext u
-  simp [powOk]
+  simp [powOk, powEOk, powDOk, isInt_neg_one, num_neg_one]
+
+theorem powErr_neg_one : powErr (-1) = .div0 := by simp [powErr, isInt_neg_one]
+
+theorem expand_map (f : Rat → Rat) (n : Nat) (v : Vec) :
+    expand n (v.map f) = (expand n v).map (List.map f) := by
+  unfold expand
+  simp only [List.length_map]
+  split
+  · rfl
+  · cases v with
+    | nil => rfl
+    | cons c cs =>
+      cases cs with
+      | nil => simp
+      | cons d ds => rfl
 
 
 
-theorem num_neg_one_sub : ((-1 : Rat).num - 1) = -2 := by decide
-theorem isInt_neg_one : isInt (-1) = true := by decide
-theorem num_neg_one : (-1 : Rat).num = -1 := by decide
-theorem ipow_num_neg_one (x : Rat) : ipow x (-1 : Rat).num = x⁻¹ := by
-  rw [num_neg_one]; exact ipow_neg_one x
-theorem ipow_num_neg_one_sub (x : Rat) : ipow x ((-1 : Rat).num - 1) = x⁻¹ * x⁻¹ := by
-  rw [num_neg_one_sub]; exact ipow_neg_two x
+theorem ipow_num_neg_one (x : Rat) : powE P x (-1) = x⁻¹ := by
+  simp only [powE, isInt_neg_one, if_true, num_neg_one]; exact ipow_neg_one x
+theorem ipow_num_neg_one_sub (x : Rat) : powD P x (-1) = x⁻¹ * x⁻¹ := by
+  simp only [powD, isInt_neg_one, if_true, num_neg_one_sub]; exact ipow_neg_two x
 
 /-- AdArray on the left: the methods of forward_mode.py are the closed-form rules -/
-theorem pyAd_eq_directAd (a : Ad) (op : Op) (r : Value) : pyAd a op r = directAd a op r := by
+theorem pyAd_eq_directAd (a : Ad) (op : Op) (r : Value) : pyAd P a op r = directAd P a op r := by
   cases r with
   | scalar c =>
     cases op
@@ -75,12 +93,14 @@ theorem pyAd_eq_directAd (a : Ad) (op : Op) (r : Value) : pyAd a op r = directAd
   | vec v =>
     cases op
     · rfl
-    · simp only [pyAd, adSub, pyNeg, bind_ok, adAdd, directAd, zipAV, List.length_map]
-      split
-      · rfl
-      · congr 2
+    · simp only [pyAd, adSub, pyNeg, bind_ok, adAdd, directAd, bAV, expand_map]
+      cases expand a.length v with
+      | none => rfl
+      | some w =>
+        simp only [Option.map_some]
+        congr 2
         rw [List.zipWith_map_right]
-        exact zipWith_congr' a v (fun u c => by simp only [dSubC]; congr 1; grind)
+        exact zipWith_congr' a w (fun u c => by simp only [dSubC]; congr 1; grind)
     · rfl
     · simp only [pyAd, adTruediv, directAd, zipAV]
       split
@@ -113,8 +133,7 @@ theorem pyAd_eq_directAd (a : Ad) (op : Op) (r : Value) : pyAd a op r = directAd
       split
       · rfl
       · rename_i h1
-        simp only [adPow, isInt_neg_one, any_not_powOk_neg_one]
-        simp only [Bool.not_true, Bool.false_eq_true, if_false]
+        simp only [adPow, any_not_powOk_neg_one, powErr_neg_one]
         split
         · rfl
         · simp only [bind_ok, adMul, List.length_map, h1, if_false]
@@ -132,7 +151,7 @@ theorem pyAd_eq_directAd (a : Ad) (op : Op) (r : Value) : pyAd a op r = directAd
 
 
 /-- number on the left of an AdArray: the reverse methods are the closed-form rules -/
-theorem pyScalar_ad_eq (c : Rat) (a : Ad) (op : Op) : pyScalar c op (.ad a) = directSA c a op := by
+theorem pyScalar_ad_eq (c : Rat) (a : Ad) (op : Op) : pyScalar P c op (.ad a) = directSA P c a op := by
   cases op
   · simp only [pyScalar, adAdd, directSA]
     congr 2
@@ -143,8 +162,7 @@ theorem pyScalar_ad_eq (c : Rat) (a : Ad) (op : Op) : pyScalar c op (.ad a) = di
   · simp only [pyScalar, adRmul, adMul, directSA]
     congr 2
     exact map_congr' a (fun u => by simp only [dCMul, gmap_mul_right]; congr 1; grind)
-  · simp only [pyScalar, adRtruediv, adPow, isInt_neg_one, any_not_powOk_neg_one, directSA]
-    simp only [Bool.not_true, Bool.false_eq_true, if_false]
+  · simp only [pyScalar, adRtruediv, adPow, any_not_powOk_neg_one, powErr_neg_one, directSA]
     split
     · rfl
     · simp only [bind_ok, adMul, List.map_map]
@@ -158,33 +176,35 @@ theorem pyScalar_ad_eq (c : Rat) (a : Ad) (op : Op) : pyScalar c op (.ad a) = di
   · rfl
 
 /-- numpy array on the left of an AdArray: what the parser does instead of `ndarray ∘ AdArray` -/
-theorem flip_add (N : Nat) (v : Vec) (a : Ad) : py N .add (.ad a) (.vec v) = directVA v a .add := by
-  simp only [py, pyAd, adAdd, directVA, zipAV]
-  split
-  · rfl
-  · congr 2
-    exact zipWith_congr' a v (fun u c => by simp only [dCAdd]; congr 1; grind)
+theorem flip_add (N : Nat) (v : Vec) (a : Ad) : py P N .add (.ad a) (.vec v) = directVA P v a .add := by
+  simp only [py, pyAd, adAdd, directVA, bAV]
+  cases expand a.length v with
+  | none => rfl
+  | some w =>
+    dsimp only
+    congr 2
+    exact zipWith_congr' a w (fun u c => by simp only [dCAdd]; congr 1; grind)
 
 theorem flip_sub (N : Nat) (v : Vec) (a : Ad) :
-    (py N .sub (.ad a) (.vec v) >>= pyNeg) = directVA v a .sub := by
-  simp only [py, pyAd, adSub, pyNeg, bind_ok, adAdd, directVA, zipAV, List.length_map]
-  split
-  · rfl
-  · simp only [bind_ok, pyNeg]
+    (py P N .sub (.ad a) (.vec v) >>= pyNeg) = directVA P v a .sub := by
+  simp only [py, pyAd, adSub, pyNeg, bind_ok, adAdd, directVA, bAV, expand_map]
+  cases expand a.length v with
+  | none => rfl
+  | some w =>
+    simp only [Option.map_some, bind_ok, pyNeg]
     congr 2
     rw [List.zipWith_map_right, List.map_zipWith]
-    exact zipWith_congr' a v (fun u c => by simp only [dneg, dCSub]; congr 1; grind)
+    exact zipWith_congr' a w (fun u c => by simp only [dneg, dCSub]; congr 1; grind)
 
-theorem flip_mul (N : Nat) (v : Vec) (a : Ad) : py N .mul (.ad a) (.vec v) = directVA v a .mul := by
+theorem flip_mul (N : Nat) (v : Vec) (a : Ad) : py P N .mul (.ad a) (.vec v) = directVA P v a .mul := by
   simp only [py, pyAd, adMul, directVA, zipAV]
   split
   · rfl
   · congr 2
     exact zipWith_congr' a v (fun u c => by simp only [dCMul]; congr 1; grind)
 
-theorem flip_div (v : Vec) (a : Ad) : adRtruediv a (.vec v) = directVA v a .div := by
-  simp only [adRtruediv, adPow, isInt_neg_one, any_not_powOk_neg_one, directVA, zipAV]
-  simp only [Bool.not_true, Bool.false_eq_true, if_false]
+theorem flip_div (v : Vec) (a : Ad) : adRtruediv P a (.vec v) = directVA P v a .div := by
+  simp only [adRtruediv, adPow, any_not_powOk_neg_one, powErr_neg_one, directVA, zipAV]
   split
   · rfl
   · simp only [bind_ok, adMul, List.length_map]
@@ -204,46 +224,57 @@ theorem vec_scalar_add (v : Vec) (c : Rat) : v.map (c + ·) = v.map (· + c) :=
 theorem vec_scalar_sub (v : Vec) (c : Rat) : (v.map (c - ·)).map (- ·) = v.map (· - c) := by
   rw [List.map_map]; exact map_congr' v (fun x => by simp only [Function.comp]; grind)
 
+theorem bvv_swap (v w : Vec) : bvv w v = (bvv v w).map Prod.swap := by
+  rcases v with _ | ⟨c, _ | ⟨c2, cs⟩⟩ <;> rcases w with _ | ⟨d, _ | ⟨d2, ds⟩⟩ <;>
+    simp [bvv, expand]
+  by_cases h : cs.length = ds.length
+  · have h' : ds.length = cs.length := h.symm
+    simp [h]
+  · have h' : ¬ ds.length = cs.length := fun e => h e.symm
+    simp [h, h']
+
 theorem vecBin_add_comm (v w : Vec) : vecBin (· + ·) w v = vecBin (· + ·) v w := by
   unfold vecBin
-  by_cases h : v.length = w.length
-  · simp only [h, ne_eq, not_true_eq_false, if_false]
+  rw [bvv_swap]
+  cases bvv v w with
+  | none => rfl
+  | some p =>
+    obtain ⟨x, y⟩ := p
+    simp only [Option.map_some, Prod.swap]
     rw [List.zipWith_comm]
     congr 2
-    exact zipWith_congr' v w (fun x y => by grind)
-  · have h' : ¬ w.length = v.length := fun e => h e.symm
-    simp [h, h']
+    exact zipWith_congr' x y (fun x y => by grind)
 
 theorem vecBin_sub_flip (v w : Vec) : (vecBin (· - ·) w v >>= pyNeg) = vecBin (· - ·) v w := by
   unfold vecBin
-  by_cases h : v.length = w.length
-  · simp only [h, ne_eq, not_true_eq_false, if_false, bind_ok, pyNeg]
+  rw [bvv_swap]
+  cases bvv v w with
+  | none => rfl
+  | some p =>
+    obtain ⟨x, y⟩ := p
+    simp only [Option.map_some, Prod.swap, bind_ok, pyNeg]
     rw [List.zipWith_comm, List.map_zipWith]
     congr 2
-    exact zipWith_congr' v w (fun x y => by grind)
-  · have h' : ¬ w.length = v.length := fun e => h e.symm
-    simp [h, h']
-
-
+    exact zipWith_congr' x y (fun x y => by grind)
 
 theorem parseBin_eq_directBin' (N : Nat) (op : Op) (l r : Value) :
-    parseBin N op l r = directBin N op l r := by
+    parseBin P N op l r = directBin P N op l r := by
   cases l with
   | ad a =>
-    have h : directBin N op (.ad a) r = directAd a op r := by simp only [directBin]
+    have h : directBin P N op (.ad a) r = directAd P a op r := by simp only [directBin]
     rw [h, ← pyAd_eq_directAd]
     cases op <;> cases r <;> rfl
   | scalar c =>
     cases r with
     | ad a =>
-      have h : directBin N op (.scalar c) (.ad a) = directSA c a op := by simp only [directBin]
+      have h : directBin P N op (.scalar c) (.ad a) = directSA P c a op := by simp only [directBin]
       rw [h, ← pyScalar_ad_eq]
       cases op <;> rfl
     | _ => cases op <;> rfl
   | vec v =>
     cases r with
     | ad a =>
-      have h : directBin N op (.vec v) (.ad a) = directVA v a op := by simp only [directBin]
+      have h : directBin P N op (.vec v) (.ad a) = directVA P v a op := by simp only [directBin]
       rw [h]
       cases op
       · exact flip_add N v a
@@ -413,15 +444,16 @@ macro "noad" : tactic =>
       | exact okNoAd_ok _ rfl
       | apply okNoAd_ite
       | (apply okNoAd_bind; intro _)
-      | assumption))
+      | assumption
+      | split))
 
-theorem noAd_pyScalar (c : Rat) (op : Op) (r : Value) (hr : r.isAd = false) : okNoAd (pyScalar c op r) := by
+theorem noAd_pyScalar (c : Rat) (op : Op) (r : Value) (hr : r.isAd = false) : okNoAd (pyScalar P c op r) := by
   cases r <;> cases op <;> first | (simp only [pyScalar, matScale]; noad; done) | cases hr
 
-theorem noAd_pyVec (v : Vec) (op : Op) (r : Value) (hr : r.isAd = false) : okNoAd (pyVec v op r) := by
+theorem noAd_pyVec (v : Vec) (op : Op) (r : Value) (hr : r.isAd = false) : okNoAd (pyVec P v op r) := by
   cases r <;> cases op <;> first | (simp only [pyVec, vecBin]; noad; done) | cases hr
 
-theorem noAd_pyMat (N : Nat) (m : Mat) (op : Op) (r : Value) (hr : r.isAd = false) : okNoAd (pyMat N m op r) := by
+theorem noAd_pyMat (N : Nat) (m : Mat) (op : Op) (r : Value) (hr : r.isAd = false) : okNoAd (pyMat P N m op r) := by
   cases r <;> cases op <;> first | (simp only [pyMat, matScale, matVec, matMat, matAddSub]; noad; done) | cases hr
 
 theorem noAd_slicerMatmul (N : Nat) (s : Slicer) (r : Value) (hr : r.isAd = false) : okNoAd (slicerMatmul N s r) := by
@@ -461,7 +493,7 @@ theorem noAd_sumSlicers (N : Nat) (ps : List Slicer) (x : Value) (hx : x.isAd = 
       exact noAd_foldlM N x rest first (noAd_slicerMatmul N p x hx _ h1) z hz
 
 theorem noAd_py (N : Nat) (op : Op) (l r : Value) (hl : l.isAd = false) (hr : r.isAd = false) :
-    okNoAd (py N op l r) := by
+    okNoAd (py P N op l r) := by
   cases l with
   | scalar c => exact noAd_pyScalar c op r hr
   | vec v => exact noAd_pyVec v op r hr
@@ -471,7 +503,7 @@ theorem noAd_py (N : Nat) (op : Op) (l r : Value) (hl : l.isAd = false) (hr : r.
   | slicers ps => exact okNoAd_err _
 
 theorem noAd_directBin (N : Nat) (op : Op) (l r : Value) (hl : l.isAd = false) (hr : r.isAd = false) :
-    okNoAd (directBin N op l r) := by
+    okNoAd (directBin P N op l r) := by
   cases l with
   | ad a => cases hl
   | slicers ps =>
@@ -503,17 +535,73 @@ theorem mapM_ok {α β : Type} (f : α → R β) (g : α → β) (l : List α) (
     rw [List.mapM_cons, h x (List.mem_cons_self), bind_ok, ih (fun y hy => h y (List.mem_cons_of_mem _ hy))]
     rfl
 
-theorem powEntry_ok (x c : Rat) (hc : isInt c = true) (h : powOk x c.num = true) : powEntry x c = .ok (ipow x c.num) := by
-  unfold powEntry
-  simp only [hc, Bool.not_true, Bool.false_eq_true, if_false]
-  have : (x == 0 && decide (c.num < 0)) = false := by
-    unfold powOk at h
-    cases hx : (x == 0) <;> simp_all
-  simp [this]
+theorem powEntry_ok (x c : Rat) (h : powEOk P x c = true) : powEntry P x c = .ok (powE P x c) := by
+  simp only [powEntry, h, if_true]
+
+theorem powEOk_of_powOk {x c : Rat} (h : powOk P x c = true) : powEOk P x c = true := by
+  unfold powOk at h
+  exact (Bool.and_eq_true_iff.mp h).1
+
+theorem expand_length {n : Nat} {v w : Vec} (h : expand n v = some w) : w.length = n := by
+  unfold expand at h
+  split at h
+  · rename_i hl; cases h; exact hl
+  · split at h
+    · cases h; simp
+    · cases h
+
+theorem expand_self (v : Vec) : expand v.length v = some v := by simp [expand]
+
+theorem bvv_of_len {v w : Vec} (h : v.length = w.length) : bvv v w = some (v, w) := by
+  simp [bvv, expand, h]
+
+theorem bvv_of_expand_right {n : Nat} {x v w : Vec} (hx : x.length = n) (h : expand n v = some w) :
+    bvv x v = some (x, w) := by
+  simp [bvv, hx, h]
+
+theorem bvv_of_expand_left {n : Nat} {y v w : Vec} (hy : y.length = n) (h : expand n v = some w) :
+    bvv v y = some (w, y) := by
+  by_cases hv : v.length = n
+  · have : w = v := by
+      unfold expand at h; simp only [hv, if_true] at h; cases h; rfl
+    subst this
+    exact bvv_of_len (by omega)
+  · unfold expand at h
+    simp only [hv, if_false] at h
+    rcases v with _ | ⟨c, _ | ⟨c2, cs⟩⟩
+    · cases h
+    · simp only [Option.some.injEq] at h
+      subst h
+      rcases y with _ | ⟨d, _ | ⟨d2, ds⟩⟩
+      · have hn : n = 0 := by simpa using hy.symm
+        subst hn
+        simp [bvv, expand]
+      · simp at hy; subst hy; simp at hv
+      · simp only [List.length_cons] at hy
+        subst hy
+        simp [bvv, expand]
+    · cases h
+
+theorem vecBin_of_len (f : Rat → Rat → Rat) {v w : Vec} (h : v.length = w.length) :
+    vecBin f v w = .ok (.vec (List.zipWith f v w)) := by
+  simp only [vecBin, bvv_of_len h]
+
+theorem vals_zipWith_left (f : Dual → Rat → Dual) (g : Rat → Rat → Rat) (hf : ∀ u c, (f u c).v = g u.v c)
+    (a : Ad) (w : Vec) : vals (List.zipWith f a w) = List.zipWith g (vals a) w := by
+  simp only [vals, List.map_zipWith, List.zipWith_map_left, hf]
+
+theorem vals_zipWith_swap (f : Dual → Rat → Dual) (g : Rat → Rat → Rat) (hf : ∀ u c, (f u c).v = g c u.v)
+    (a : Ad) (w : Vec) : vals (List.zipWith f a w) = List.zipWith g w (vals a) := by
+  simp only [vals, List.map_zipWith, hf]
+  rw [List.zipWith_map_right, List.zipWith_comm]
+
+theorem vals_zipWith_both (f : Dual → Dual → Dual) (g : Rat → Rat → Rat) (hf : ∀ u w, (f u w).v = g u.v w.v)
+    (a b : Ad) : vals (List.zipWith f a b) = List.zipWith g (vals a) (vals b) := by
+  simp only [vals, List.map_zipWith, List.zipWith_map_left, List.zipWith_map_right, hf]
 
 theorem hom_ad_scalar (N : Nat) (a : Ad) (c : Rat) (op : Op) (z : Value)
-    (h : directAd a op (.scalar c) = .ok z) :
-    directBin N op (.vec (vals a)) (.scalar c) = .ok (strip z) := by
+    (h : directAd P a op (.scalar c) = .ok z) :
+    directBin P N op (.vec (vals a)) (.scalar c) = .ok (strip z) := by
   cases op
   · simp only [directAd] at h; cases h
     simp [directBin, strip, vals, List.map_map, dAddC, Function.comp_def]
@@ -530,63 +618,78 @@ theorem hom_ad_scalar (N : Nat) (a : Ad) (c : Rat) (op : Op) (z : Value)
   · simp only [directAd, dPowS] at h
     split at h
     · cases h
-    · split at h
-      · cases h
-      · rename_i hc hok
-        cases h
-        have hc' : isInt c = true := by simpa using hc
-        have hall : ∀ x ∈ vals a, powEntry x c = .ok (ipow x c.num) := by
-          intro x hx
-          obtain ⟨u, hu, rfl⟩ := List.mem_map.mp hx
-          apply powEntry_ok _ _ hc'
-          have hok' : ∀ (x : Dual), x ∈ a → powOk x.v c.num = true := by simpa using hok
-          exact hok' u hu
-        simp only [directBin, py, pyVec, mapM_ok _ _ _ hall, bind_ok, pure_eq_ok, strip]
-        simp [vals, List.map_map, dPowC, Function.comp_def]
+    · rename_i hok
+      cases h
+      have hok' : ∀ (x : Dual), x ∈ a → powOk P x.v c = true := by simpa using hok
+      have hall : ∀ x ∈ vals a, powEntry P x c = .ok (powE P x c) := by
+        intro x hx
+        obtain ⟨u, hu, rfl⟩ := List.mem_map.mp hx
+        exact powEntry_ok _ _ (powEOk_of_powOk (hok' u hu))
+      simp only [directBin, py, pyVec, mapM_ok _ _ _ hall, bind_ok, pure_eq_ok, strip]
+      simp [vals, List.map_map, dPowC, Function.comp_def]
   · simp only [directAd] at h; cases h
 
-
-
-theorem powV_strip : ∀ (a : Ad) (w : Vec), a.length = w.length →
-    (w.any fun c => !isInt c) = false →
-    (List.zipWith (fun (u : Dual) (c : Rat) => !powOk u.v c.num) a w).any id = false →
-    (List.zipWith (fun x c => (x, c)) (vals a) w).mapM (fun p => powEntry p.1 p.2)
-      = .ok (vals (List.zipWith dPowC a w)) := by
-  intro a
-  induction a with
-  | nil => intro w _ _ _; cases w <;> rfl
-  | cons u us ih =>
-    intro w hl hi hp
-    cases w with
+/-- entrywise powers of two equally long lists, when every entry is fine -/
+theorem pow_pairs_ok : ∀ (x y : Vec), x.length = y.length →
+    (List.zipWith (fun (p q : Rat) => !powEOk P p q) x y).any id = false →
+    (List.zipWith (fun p q => (p, q)) x y).mapM (fun p => powEntry P p.1 p.2)
+      = .ok (List.zipWith (powE P) x y) := by
+  intro x
+  induction x with
+  | nil => intro y _ _; cases y <;> rfl
+  | cons p ps ih =>
+    intro y hl hp
+    cases y with
     | nil => simp at hl
-    | cons c cs =>
-      simp only [List.any_cons, Bool.or_eq_false_iff, List.zipWith_cons_cons, id] at hi hp
-      have hc : isInt c = true := by simpa using hi.1
-      have hu : powOk u.v c.num = true := by simpa using hp.1
-      have := ih cs (by simpa using hl) hi.2 hp.2
-      simp only [vals, List.map_cons, List.zipWith_cons_cons, List.mapM_cons, powEntry_ok _ _ hc hu, bind_ok] at this ⊢
-      rw [this]
+    | cons q qs =>
+      simp only [List.any_cons, Bool.or_eq_false_iff, List.zipWith_cons_cons, id] at hp
+      have hu : powEOk P p q = true := by simpa using hp.1
+      have := ih qs (by simpa using hl) hp.2
+      simp only [List.zipWith_cons_cons, List.mapM_cons, powEntry_ok _ _ hu, bind_ok, this]
       rfl
 
+theorem any_zipWith_imp {α β : Type} (f g : α → β → Bool) (hfg : ∀ x y, g x y = true → f x y = true) :
+    ∀ (a : List α) (b : List β), (List.zipWith f a b).any id = false → (List.zipWith g a b).any id = false := by
+  intro a
+  induction a with
+  | nil => intro b _; rfl
+  | cons x xs ih =>
+    intro b h
+    cases b with
+    | nil => rfl
+    | cons y ys =>
+      simp only [List.zipWith_cons_cons, List.any_cons, Bool.or_eq_false_iff, id] at h ⊢
+      refine ⟨?_, ih ys h.2⟩
+      cases hg : g x y with
+      | false => rfl
+      | true => rw [hfg x y hg] at h; exact absurd h.1 (by simp)
+
 theorem hom_ad_vec (N : Nat) (a : Ad) (w : Vec) (op : Op) (z : Value)
-    (h : directAd a op (.vec w) = .ok z) :
-    directBin N op (.vec (vals a)) (.vec w) = .ok (strip z) := by
+    (h : directAd P a op (.vec w) = .ok z) :
+    directBin P N op (.vec (vals a)) (.vec w) = .ok (strip z) := by
+  have hla : (vals a).length = a.length := by simp [vals]
   cases op
+  · simp only [directAd, bAV] at h
+    cases he : expand a.length w with
+    | none => simp [he] at h
+    | some w' =>
+      simp only [he] at h; cases h
+      simp only [directBin, vecBin, bvv_of_expand_right hla he, strip,
+        vals_zipWith_left dAddC (· + ·) (fun _ _ => rfl)]
+  · simp only [directAd, bAV] at h
+    cases he : expand a.length w with
+    | none => simp [he] at h
+    | some w' =>
+      simp only [he] at h; cases h
+      simp only [directBin, vecBin, bvv_of_expand_right hla he, strip,
+        vals_zipWith_left dSubC (· - ·) (fun _ _ => rfl)]
   · simp only [directAd, zipAV] at h
     split at h
     · cases h
     · rename_i hl; cases h
-      simp [directBin, vecBin, hl, strip, vals, List.map_zipWith, List.zipWith_map_left, dAddC]
-  · simp only [directAd, zipAV] at h
-    split at h
-    · cases h
-    · rename_i hl; cases h
-      simp [directBin, vecBin, hl, strip, vals, List.map_zipWith, List.zipWith_map_left, dSubC]
-  · simp only [directAd, zipAV] at h
-    split at h
-    · cases h
-    · rename_i hl; cases h
-      simp [directBin, py, pyVec, vecBin, hl, strip, vals, List.map_zipWith, List.zipWith_map_left, dMulC]
+      have hl' : (vals a).length = w.length := by rw [hla]; simpa using hl
+      simp only [directBin, py, pyVec, vecBin_of_len _ hl', strip,
+        vals_zipWith_left dMulC (· * ·) (fun _ _ => rfl)]
   · simp only [directAd, zipAV] at h
     split at h
     · cases h
@@ -595,42 +698,51 @@ theorem hom_ad_vec (N : Nat) (a : Ad) (w : Vec) (op : Op) (z : Value)
       · rename_i hl hz
         try simp only [hl, if_false] at h
         cases h
-        simp [directBin, py, pyVec, hl, hz, strip, vals, List.map_zipWith, List.zipWith_map_left, dDivC]
+        have hl' : (vals a).length = w.length := by rw [hla]; simpa using hl
+        simp only [directBin, py, pyVec, bvv_of_len hl', hz, Bool.false_eq_true, if_false, strip,
+          vals_zipWith_left dDivC (· / ·) (fun _ _ => rfl)]
   · simp only [directAd, dPowV] at h
-    split at h
-    · cases h
-    · split at h
+    cases he : expand a.length w with
+    | none => simp [he] at h
+    | some w' =>
+      simp only [he] at h
+      split at h
       · cases h
-      · split at h
-        · cases h
-        · rename_i hl hi hp
-          cases h
-          have hl' : a.length = w.length := by simpa using hl
-          have := powV_strip a w hl' (by simpa using hi) (by simpa using hp)
-          simp only [directBin, py, pyVec, vals, List.length_map, hl, if_false] at this ⊢
-          rw [this]
-          rfl
+      · rename_i hp
+        cases h
+        have hl' : (vals a).length = w'.length := by rw [hla, expand_length he]
+        have hp' : (List.zipWith (fun (p q : Rat) => !powEOk P p q) (vals a) w').any id = false := by
+          have := any_zipWith_imp (fun (u : Dual) (c : Rat) => !powOk P u.v c) (fun (u : Dual) (c : Rat) => !powEOk P u.v c)
+            (fun u c hg => by
+              cases hk : powOk P u.v c with
+              | false => rfl
+              | true => rw [powEOk_of_powOk hk] at hg; simp at hg) a w' (by simpa using hp)
+          simpa [vals, List.zipWith_map_left] using this
+        simp only [directBin, py, pyVec, bvv_of_expand_right hla he, pow_pairs_ok _ _ hl' hp', bind_ok, pure_eq_ok, strip,
+          vals_zipWith_left (dPowC P) (powE P) (fun _ _ => rfl)]
   · simp only [directAd] at h; cases h
 
 theorem hom_ad_ad (N : Nat) (a b : Ad) (op : Op) (z : Value)
-    (h : directAd a op (.ad b) = .ok z) :
-    directBin N op (.vec (vals a)) (.vec (vals b)) = .ok (strip z) := by
+    (h : directAd P a op (.ad b) = .ok z) :
+    directBin P N op (.vec (vals a)) (.vec (vals b)) = .ok (strip z) := by
+  have hlen : ¬ a.length ≠ b.length → (vals a).length = (vals b).length := by
+    intro hl; simp [vals]; omega
   cases op
   · simp only [directAd, zipAA] at h
     split at h
     · cases h
     · rename_i hl; cases h
-      simp [directBin, vecBin, hl, strip, vals, List.map_zipWith, List.zipWith_map_left, List.zipWith_map_right, dAdd]
+      simp only [directBin, vecBin_of_len _ (hlen hl), strip, vals_zipWith_both dAdd (· + ·) (fun _ _ => rfl)]
   · simp only [directAd, zipAA] at h
     split at h
     · cases h
     · rename_i hl; cases h
-      simp [directBin, vecBin, hl, strip, vals, List.map_zipWith, List.zipWith_map_left, List.zipWith_map_right, dSub]
+      simp only [directBin, vecBin_of_len _ (hlen hl), strip, vals_zipWith_both dSub (· - ·) (fun _ _ => rfl)]
   · simp only [directAd, zipAA] at h
     split at h
     · cases h
     · rename_i hl; cases h
-      simp [directBin, py, pyVec, vecBin, hl, strip, vals, List.map_zipWith, List.zipWith_map_left, List.zipWith_map_right, dMul]
+      simp only [directBin, py, pyVec, vecBin_of_len _ (hlen hl), strip, vals_zipWith_both dMul (· * ·) (fun _ _ => rfl)]
   · simp only [directAd, zipAA] at h
     split at h
     · cases h
@@ -639,17 +751,29 @@ theorem hom_ad_ad (N : Nat) (a b : Ad) (op : Op) (z : Value)
       · rename_i hl hz
         try simp only [hl, if_false] at h
         cases h
-        have hz' : hasZero (List.map (fun x => x.v) b) = false := by simpa [vals] using hz
-        simp [directBin, py, pyVec, hl, hz', strip, vals, List.map_zipWith, List.zipWith_map_left, List.zipWith_map_right, dDiv]
-  · simp only [directAd] at h
-    split at h <;> cases h
+        simp only [directBin, py, pyVec, bvv_of_len (hlen hl), hz, Bool.false_eq_true, if_false, strip,
+          vals_zipWith_both dDiv (· / ·) (fun _ _ => rfl)]
+  · simp only [directAd, dPowA] at h
+    split at h
+    · cases h
+    · split at h
+      · cases h
+      · rename_i hl hp
+        cases h
+        have hp' : (List.zipWith (fun (p q : Rat) => !powEOk P p q) (vals a) (vals b)).any id = false := by
+          have := any_zipWith_imp (fun (u w : Dual) => !(powOk P u.v w.v && P.logOk u.v)) (fun (u w : Dual) => !powEOk P u.v w.v)
+            (fun u w hg => by
+              cases hk : powOk P u.v w.v with
+              | false => rfl
+              | true => rw [powEOk_of_powOk hk] at hg; simp at hg) a b (by simpa using hp)
+          simpa [vals, List.zipWith_map_left, List.zipWith_map_right] using this
+        simp only [directBin, py, pyVec, bvv_of_len (hlen hl), pow_pairs_ok _ _ (hlen hl) hp', bind_ok, pure_eq_ok, strip,
+          vals_zipWith_both (dPow P) (powE P) (fun _ _ => rfl)]
   · simp only [directAd] at h; cases h
 
-
-
 theorem hom_scalar_ad (N : Nat) (c : Rat) (a : Ad) (op : Op) (z : Value)
-    (h : directSA c a op = .ok z) :
-    directBin N op (.scalar c) (.vec (vals a)) = .ok (strip z) := by
+    (h : directSA P c a op = .ok z) :
+    directBin P N op (.scalar c) (.vec (vals a)) = .ok (strip z) := by
   cases op
   · simp only [directSA] at h; cases h
     simp [directBin, py, pyScalar, strip, vals, List.map_map, dCAdd, Function.comp_def]
@@ -663,51 +787,75 @@ theorem hom_scalar_ad (N : Nat) (c : Rat) (a : Ad) (op : Op) (z : Value)
     · rename_i hz; cases h
       have hz' : hasZero (List.map (fun x => x.v) a) = false := by simpa [vals] using hz
       simp [directBin, py, pyScalar, hz', strip, vals, List.map_map, dCDiv, Function.comp_def]
+  · simp only [directSA, dCPowS] at h
+    split at h
+    · cases h
+    · rename_i hok
+      cases h
+      have hok' : ∀ (x : Dual), x ∈ a → (powEOk P c x.v && P.logOk c) = true := by simpa using hok
+      have hall : ∀ x ∈ vals a, powEntry P c x = .ok (powE P c x) := by
+        intro x hx
+        obtain ⟨u, hu, rfl⟩ := List.mem_map.mp hx
+        exact powEntry_ok _ _ (Bool.and_eq_true_iff.mp (hok' u hu)).1
+      simp only [directBin, py, pyScalar, mapM_ok _ _ _ hall, bind_ok, pure_eq_ok, strip]
+      simp [vals, List.map_map, dCPow, Function.comp_def]
   · simp only [directSA] at h; cases h
-  · simp only [directSA] at h; cases h
-
-theorem zipWith_swap_vals (f : Rat → Rat → Rat) (a : Ad) (v : Vec) :
-    List.zipWith (fun (u : Dual) (c : Rat) => f c u.v) a v = List.zipWith f v (vals a) := by
-  unfold vals
-  rw [List.zipWith_map_right, List.zipWith_comm]
 
 theorem hom_vec_ad (N : Nat) (v : Vec) (a : Ad) (op : Op) (z : Value)
-    (h : directVA v a op = .ok z) :
-    directBin N op (.vec v) (.vec (vals a)) = .ok (strip z) := by
+    (h : directVA P v a op = .ok z) :
+    directBin P N op (.vec v) (.vec (vals a)) = .ok (strip z) := by
+  have hla : (vals a).length = a.length := by simp [vals]
   cases op
+  · simp only [directVA, bAV] at h
+    cases he : expand a.length v with
+    | none => simp [he] at h
+    | some w' =>
+      simp only [he] at h; cases h
+      simp only [directBin, vecBin, bvv_of_expand_left hla he, strip,
+        vals_zipWith_swap (fun u c => dCAdd c u) (· + ·) (fun _ _ => rfl)]
+  · simp only [directVA, bAV] at h
+    cases he : expand a.length v with
+    | none => simp [he] at h
+    | some w' =>
+      simp only [he] at h; cases h
+      simp only [directBin, vecBin, bvv_of_expand_left hla he, strip,
+        vals_zipWith_swap (fun u c => dCSub c u) (· - ·) (fun _ _ => rfl)]
   · simp only [directVA, zipAV] at h
     split at h
     · cases h
     · rename_i hl; cases h
-      have hl' : v.length = (vals a).length := by simp [vals]; omega
-      simp only [directBin, vecBin, hl', ne_eq, not_true_eq_false, if_false, strip, vals, List.map_zipWith, dCAdd]
-      rw [zipWith_swap_vals (· + ·)]; rfl
-  · simp only [directVA, zipAV] at h
-    split at h
-    · cases h
-    · rename_i hl; cases h
-      have hl' : v.length = (vals a).length := by simp [vals]; omega
-      simp only [directBin, vecBin, hl', ne_eq, not_true_eq_false, if_false, strip, vals, List.map_zipWith, dCSub]
-      rw [zipWith_swap_vals (· - ·)]; rfl
-  · simp only [directVA, zipAV] at h
-    split at h
-    · cases h
-    · rename_i hl; cases h
-      have hl' : v.length = (vals a).length := by simp [vals]; omega
-      simp only [directBin, py, pyVec, vecBin, hl', ne_eq, not_true_eq_false, if_false, strip, vals, List.map_zipWith, dCMul]
-      rw [zipWith_swap_vals (· * ·)]; rfl
+      have hl' : v.length = (vals a).length := by rw [hla]; omega
+      simp only [directBin, py, pyVec, vecBin_of_len _ hl', strip,
+        vals_zipWith_swap (fun u c => dCMul c u) (· * ·) (fun _ _ => rfl)]
   · simp only [directVA, zipAV] at h
     split at h
     · cases h
     · split at h
       · cases h
       · rename_i hz hl; cases h
-        have hl' : v.length = (vals a).length := by simp [vals]; omega
+        have hl' : v.length = (vals a).length := by rw [hla]; omega
         have hz' : hasZero (vals a) = false := by simpa using hz
-        simp only [directBin, py, pyVec, hl', hz', ne_eq, not_true_eq_false, if_false, Bool.false_eq_true, strip, dCDiv]
-        rw [← zipWith_swap_vals (· / ·)]
-        simp only [vals, List.map_zipWith]
-  · simp only [directVA] at h; cases h
+        simp only [directBin, py, pyVec, bvv_of_len hl', hz', Bool.false_eq_true, if_false, strip,
+          vals_zipWith_swap (fun u c => dCDiv c u) (· / ·) (fun _ _ => rfl)]
+  · simp only [directVA, dCPowV] at h
+    cases he : expand a.length v with
+    | none => simp [he] at h
+    | some w' =>
+      simp only [he] at h
+      split at h
+      · cases h
+      · rename_i hp
+        cases h
+        have hl' : w'.length = (vals a).length := by rw [hla, expand_length he]
+        have hp' : (List.zipWith (fun (p q : Rat) => !powEOk P p q) w' (vals a)).any id = false := by
+          have := any_zipWith_imp (fun (u : Dual) (c : Rat) => !(powEOk P c u.v && P.logOk c)) (fun (u : Dual) (c : Rat) => !powEOk P c u.v)
+            (fun u c hg => by
+              have hk : powEOk P c u.v = false := by simpa using hg
+              simp [hk]) a w' (by simpa using hp)
+          rw [List.zipWith_comm] at this
+          simpa [vals, List.zipWith_map_right] using this
+        simp only [directBin, py, pyVec, bvv_of_expand_left hla he, pow_pairs_ok _ _ hl' hp', bind_ok, pure_eq_ok, strip,
+          vals_zipWith_swap (fun u c => dCPow P c u) (powE P) (fun _ _ => rfl)]
   · simp only [directVA] at h; cases h
 
 theorem combo_v (N : Nat) (r : List Rat) (a : Ad) : (combo N r a).v = dot r (vals a) := by
@@ -727,8 +875,8 @@ theorem combo_v (N : Nat) (r : List Rat) (a : Ad) : (combo N r a).v = dot r (val
       exact ih us _ _ (by simp [h])
 
 theorem hom_mat_ad (N : Nat) (m : Mat) (a : Ad) (op : Op) (z : Value)
-    (h : directBin N op (.mat m) (.ad a) = .ok z) :
-    directBin N op (.mat m) (.vec (vals a)) = .ok (strip z) := by
+    (h : directBin P N op (.mat m) (.ad a) = .ok z) :
+    directBin P N op (.mat m) (.vec (vals a)) = .ok (strip z) := by
   cases op
   all_goals try (simp only [directBin] at h; cases h)
   simp only [directBin, adRmatmul] at h
@@ -830,11 +978,11 @@ theorem hom_sumSlicers (N : Nat) (ps : List Slicer) (x z : Value) (h : sumSlicer
       exact hom_foldlM N x rest first z h
 
 /-- forgetting the Jacobians of the operands forgets the Jacobian of the result -/
-theorem directBin_strip (N : Nat) (op : Op) (x y z : Value) (h : directBin N op x y = .ok z) :
-    directBin N op (strip x) (strip y) = .ok (strip z) := by
+theorem directBin_strip (N : Nat) (op : Op) (x y z : Value) (h : directBin P N op x y = .ok z) :
+    directBin P N op (strip x) (strip y) = .ok (strip z) := by
   cases x with
   | ad a =>
-    have h' : directAd a op y = .ok z := by simpa only [directBin] using h
+    have h' : directAd P a op y = .ok z := by simpa only [directBin] using h
     cases y with
     | scalar c => exact hom_ad_scalar N a c op z h'
     | vec w => exact hom_ad_vec N a w op z h'
@@ -874,8 +1022,8 @@ theorem directBin_strip (N : Nat) (op : Op) (x y z : Value) (h : directBin N op 
 
 theorem strip_idem_scalar (c : Rat) : strip (.scalar c) = .scalar c := rfl
 
-theorem hom_feval (N : Nat) (f : FExpr) : ∀ (x y z : Value), f.eval N x y = .ok z →
-    f.eval N (strip x) (strip y) = .ok (strip z) := by
+theorem hom_feval (N : Nat) (f : FExpr) : ∀ (x y z : Value), f.eval P N x y = .ok z →
+    f.eval P N (strip x) (strip y) = .ok (strip z) := by
   induction f with
   | x => intro x y z h; simp only [FExpr.eval] at h ⊢; cases h; rfl
   | y => intro x y z h; simp only [FExpr.eval] at h ⊢; cases h; rfl
@@ -883,10 +1031,10 @@ theorem hom_feval (N : Nat) (f : FExpr) : ∀ (x y z : Value), f.eval N x y = .o
   | add a b iha ihb =>
     intro x y z h
     simp only [FExpr.eval] at h ⊢
-    cases h1 : a.eval N x y with
+    cases h1 : a.eval P N x y with
     | error e => simp [h1] at h
     | ok p =>
-      cases h2 : b.eval N x y with
+      cases h2 : b.eval P N x y with
       | error e => simp [h1, h2] at h
       | ok q =>
         simp only [h1, h2, bind_ok] at h
@@ -895,10 +1043,10 @@ theorem hom_feval (N : Nat) (f : FExpr) : ∀ (x y z : Value), f.eval N x y = .o
   | sub a b iha ihb =>
     intro x y z h
     simp only [FExpr.eval] at h ⊢
-    cases h1 : a.eval N x y with
+    cases h1 : a.eval P N x y with
     | error e => simp [h1] at h
     | ok p =>
-      cases h2 : b.eval N x y with
+      cases h2 : b.eval P N x y with
       | error e => simp [h1, h2] at h
       | ok q =>
         simp only [h1, h2, bind_ok] at h
@@ -907,25 +1055,15 @@ theorem hom_feval (N : Nat) (f : FExpr) : ∀ (x y z : Value), f.eval N x y = .o
   | mul a b iha ihb =>
     intro x y z h
     simp only [FExpr.eval] at h ⊢
-    cases h1 : a.eval N x y with
+    cases h1 : a.eval P N x y with
     | error e => simp [h1] at h
     | ok p =>
-      cases h2 : b.eval N x y with
+      cases h2 : b.eval P N x y with
       | error e => simp [h1, h2] at h
       | ok q =>
         simp only [h1, h2, bind_ok] at h
         simp only [iha x y p h1, ihb x y q h2, bind_ok]
         exact directBin_strip N _ p q z h
-
-theorem hom_applyFunc (N : Nat) (f : FExpr) (x y z : Value) (h : applyFunc N f x y = .ok z) :
-    applyFunc N f (strip x) (strip y) = .ok (strip z) := by
-  unfold applyFunc at h ⊢
-  cases h1 : f.eval N x y with
-  | error e => simp [h1] at h
-  | ok v =>
-    simp only [h1] at h
-    obtain rfl : v = z := by simpa only [Except.ok.injEq] using h
-    simp only [hom_feval N f x y v h1]
 
 theorem vals_adRows (state : Vec) (idx : List Nat) : vals (adRows state idx) = gather state idx := by
   simp [vals, adRows, gather, List.map_map, Function.comp_def]
@@ -973,7 +1111,7 @@ theorem hom_parseLeaf (e : Env) (l : Leaf) (z : Value) (h : parseLeaf true e l =
 /-! ### helpers for the statements about previous values and reverse operations -/
 
 theorem noAd_feval (N : Nat) (f : FExpr) (x y : Value) (hx : x.isAd = false) (hy : y.isAd = false) :
-    okNoAd (f.eval N x y) := by
+    okNoAd (f.eval P N x y) := by
   induction f with
   | x => exact okNoAd_ok _ hx
   | y => exact okNoAd_ok _ hy
@@ -981,10 +1119,10 @@ theorem noAd_feval (N : Nat) (f : FExpr) (x y : Value) (hx : x.isAd = false) (hy
   | add a b iha ihb =>
     intro z h
     simp only [FExpr.eval] at h
-    cases h1 : a.eval N x y with
+    cases h1 : a.eval P N x y with
     | error er => simp [h1] at h
     | ok p =>
-      cases h2 : b.eval N x y with
+      cases h2 : b.eval P N x y with
       | error er => simp [h1, h2] at h
       | ok q =>
         simp only [h1, h2, bind_ok] at h
@@ -992,10 +1130,10 @@ theorem noAd_feval (N : Nat) (f : FExpr) (x y : Value) (hx : x.isAd = false) (hy
   | sub a b iha ihb =>
     intro z h
     simp only [FExpr.eval] at h
-    cases h1 : a.eval N x y with
+    cases h1 : a.eval P N x y with
     | error er => simp [h1] at h
     | ok p =>
-      cases h2 : b.eval N x y with
+      cases h2 : b.eval P N x y with
       | error er => simp [h1, h2] at h
       | ok q =>
         simp only [h1, h2, bind_ok] at h
@@ -1003,25 +1141,89 @@ theorem noAd_feval (N : Nat) (f : FExpr) (x y : Value) (hx : x.isAd = false) (hy
   | mul a b iha ihb =>
     intro z h
     simp only [FExpr.eval] at h
-    cases h1 : a.eval N x y with
+    cases h1 : a.eval P N x y with
     | error er => simp [h1] at h
     | ok p =>
-      cases h2 : b.eval N x y with
+      cases h2 : b.eval P N x y with
       | error er => simp [h1, h2] at h
       | ok q =>
         simp only [h1, h2, bind_ok] at h
         exact noAd_directBin N _ p q (iha p h1) (ihb q h2) z h
 
-theorem noAd_applyFunc (N : Nat) (f : FExpr) (x y : Value) (hx : x.isAd = false) (hy : y.isAd = false) :
-    okNoAd (applyFunc N f x y) := by
+theorem strip_isAd (x : Value) : (strip x).isAd = false := by cases x <;> rfl
+theorem strip_strip (x : Value) : strip (strip x) = strip x := by cases x <;> rfl
+
+theorem wrapErr_ok {r : R Value} {z : Value}
+    (h : (match r with | .ok v => (.ok v : R Value) | .error e => .error (funcErr e)) = .ok z) : r = .ok z := by
+  cases r with
+  | error e => cases h
+  | ok v => exact h
+
+theorem vals_zipWith_mk : ∀ (w : Vec) (rows : List (List Rat)), w.length = rows.length →
+    vals (List.zipWith (fun c g => (⟨c, g⟩ : Dual)) w rows) = w := by
+  intro w
+  induction w with
+  | nil => intro rows _; rfl
+  | cons c cs ih =>
+    intro rows hl
+    cases rows with
+    | nil => simp at hl
+    | cons g gs =>
+      simp only [vals, List.zipWith_cons_cons, List.map_cons] at ih ⊢
+      rw [ih gs (by simpa using hl)]
+
+/-- a DiagonalJacobianFunction returns, up to the Jacobian, its values on the plain arguments -/
+theorem applyDiag_spec (N : Nat) (f : FExpr) (m1 : Rat) (m2 : Option Rat) (x y z : Value)
+    (h : applyDiag P N f m1 m2 x y = .ok z) :
+    f.eval P N (strip x) (strip y) = .ok (strip z) ∧ (x.isAd = false → y.isAd = false → z.isAd = false) := by
+  unfold applyDiag at h
+  cases hv : f.eval P N (strip x) (strip y) with
+  | error e => simp [hv] at h
+  | ok v =>
+    have hnv := noAd_feval N f (strip x) (strip y) (strip_isAd x) (strip_isAd y) v hv
+    simp only [hv, bind_ok] at h
+    split at h
+    · simp only [pure_eq_ok] at h
+      cases h
+      exact ⟨by rw [strip_of_noAd _ hnv], fun _ _ => hnv⟩
+    · rename_i hany
+      cases hj : diagJac m1 m2 x y with
+      | error e => simp [hj] at h
+      | ok rows =>
+        simp only [hj, bind_ok] at h
+        refine ⟨?_, fun hx hy => by simp [hx, hy] at hany⟩
+        cases v with
+        | vec w =>
+          simp only [mkDiag] at h
+          split at h
+          · cases h
+          · rename_i hl
+            cases h
+            simp only [strip, vals_zipWith_mk w rows (by simpa using hl)]
+        | scalar c => simp [mkDiag] at h
+        | mat m => simp [mkDiag] at h
+        | slicer sl => simp [mkDiag] at h
+        | slicers l => simp [mkDiag] at h
+        | ad a => simp [mkDiag] at h
+
+theorem noAd_applyFunc (N : Nat) (F : Func) (x y : Value) (hx : x.isAd = false) (hy : y.isAd = false) :
+    okNoAd (applyFunc P N F x y) := by
   intro z h
   unfold applyFunc at h
-  cases h1 : f.eval N x y with
-  | error er => simp [h1] at h
-  | ok v =>
-    simp only [h1] at h
-    obtain rfl : v = z := by simpa only [Except.ok.injEq] using h
-    exact noAd_feval N f x y hx hy v h1
+  have h' := wrapErr_ok h
+  cases F with
+  | poly f => exact noAd_feval N f x y hx hy z h'
+  | diag f m1 m2 => exact (applyDiag_spec N f m1 m2 x y z h').2 hx hy
+
+theorem hom_applyFunc (N : Nat) (F : Func) (x y z : Value) (h : applyFunc P N F x y = .ok z) :
+    applyFunc P N F (strip x) (strip y) = .ok (strip z) := by
+  unfold applyFunc at h ⊢
+  have h' := wrapErr_ok h
+  cases F with
+  | poly f => simp only [hom_feval N f x y z h']
+  | diag f m1 m2 =>
+    have hs := (applyDiag_spec N f m1 m2 x y z h').1
+    simp only [applyDiag, strip_strip, hs, bind_ok, strip_isAd, Bool.or_self, Bool.not_false, if_true, pure_eq_ok]
 
 theorem noAd_parseLeaf_false (e : Env) (l : Leaf) : okNoAd (parseLeaf false e l) := by
   cases l with
@@ -1107,5 +1309,163 @@ theorem matAdd_comm (m k : Mat) : matAddSub false m k = matAddSub false k m := b
 
 theorem direct_wrap (deriv : Bool) (e : Env) (c : Raw) : direct deriv e c.wrap = .ok c.value := by
   cases c <;> rfl
+
+
+/-! ### the parser's cache, lists of operators -/
+
+theorem cacheGet_mem {c : Cache} {l : Leaf} {v : Value} (h : cacheGet c l = some v) : (l, v) ∈ c := by
+  induction c with
+  | nil => cases h
+  | cons p rest ih =>
+    obtain ⟨k, w⟩ := p
+    simp only [cacheGet] at h
+    split at h
+    · rename_i hk; cases h; subst hk; exact List.mem_cons_self
+    · exact List.mem_cons_of_mem _ (ih h)
+
+/-- the cache is transparent: with a sound cache, the cached parser returns what the plain parser
+    returns (value or error) and leaves a sound cache -/
+theorem parseC_spec (deriv : Bool) (e : Env) (t : OpTree) : ∀ c, CacheOk deriv e c →
+    (∀ v, parse deriv e t = .ok v → ∃ c', parseC deriv e t c = .ok (v, c') ∧ CacheOk deriv e c') ∧
+    (∀ er, parse deriv e t = .error er → parseC deriv e t c = .error er) := by
+  induction t with
+  | leaf l =>
+    intro c hc
+    simp only [parse, parseC]
+    by_cases hl : l.cached = true
+    · simp only [hl, if_true]
+      cases hg : cacheGet c l with
+      | some w =>
+        have hw := hc _ (cacheGet_mem hg)
+        simp only at hw
+        constructor
+        · intro v hv; rw [hw] at hv; cases hv; exact ⟨c, rfl, hc⟩
+        · intro er her; rw [hw] at her; cases her
+      | none =>
+        constructor
+        · intro v hv
+          refine ⟨(l, v) :: c, by simp [hv], ?_⟩
+          intro p hp
+          rcases List.mem_cons.mp hp with rfl | hp
+          · exact hv
+          · exact hc p hp
+        · intro er her; simp [her]
+    · simp only [hl, Bool.false_eq_true, if_false]
+      constructor
+      · intro v hv; exact ⟨c, by simp [hv], hc⟩
+      · intro er her; simp [her]
+  | projList ps =>
+    intro c hc
+    constructor
+    · intro v hv; simp only [parse] at hv; cases hv; exact ⟨c, rfl, hc⟩
+    · intro er her; simp only [parse] at her; cases her
+  | bin op a b iha ihb =>
+    intro c hc
+    simp only [parse, parseC]
+    cases ha : parse deriv e a with
+    | error ea =>
+      simp only [(iha c hc).2 ea ha, bind_err]
+      exact ⟨fun v hv => (by cases hv), fun er her => (by cases her; rfl)⟩
+    | ok x =>
+      obtain ⟨c1, h1, hc1⟩ := (iha c hc).1 x ha
+      simp only [h1, bind_ok]
+      cases hb : parse deriv e b with
+      | error eb =>
+        simp only [(ihb c1 hc1).2 eb hb, bind_err]
+        exact ⟨fun v hv => (by cases hv), fun er her => (by cases her; rfl)⟩
+      | ok y =>
+        obtain ⟨c2, h2, hc2⟩ := (ihb c1 hc1).1 y hb
+        simp only [h2, bind_ok]
+        cases hz : parseBin e.P e.N op x y with
+        | error ez => exact ⟨fun v hv => (by cases hv), fun er her => (by cases her; rfl)⟩
+        | ok z => exact ⟨fun v hv => (by cases hv; exact ⟨c2, rfl, hc2⟩), fun er her => (by cases her)⟩
+  | func1 f a iha =>
+    intro c hc
+    simp only [parse, parseC]
+    cases ha : parse deriv e a with
+    | error ea =>
+      simp only [(iha c hc).2 ea ha, bind_err]
+      exact ⟨fun v hv => (by cases hv), fun er her => (by cases her; rfl)⟩
+    | ok x =>
+      obtain ⟨c1, h1, hc1⟩ := (iha c hc).1 x ha
+      simp only [h1, bind_ok]
+      cases hz : applyFunc e.P e.N f x x with
+      | error ez => exact ⟨fun v hv => (by cases hv), fun er her => (by cases her; rfl)⟩
+      | ok z => exact ⟨fun v hv => (by cases hv; exact ⟨c1, rfl, hc1⟩), fun er her => (by cases her)⟩
+  | func2 f a b iha ihb =>
+    intro c hc
+    simp only [parse, parseC]
+    cases ha : parse deriv e a with
+    | error ea =>
+      simp only [(iha c hc).2 ea ha, bind_err]
+      exact ⟨fun v hv => (by cases hv), fun er her => (by cases her; rfl)⟩
+    | ok x =>
+      obtain ⟨c1, h1, hc1⟩ := (iha c hc).1 x ha
+      simp only [h1, bind_ok]
+      cases hb : parse deriv e b with
+      | error eb =>
+        simp only [(ihb c1 hc1).2 eb hb, bind_err]
+        exact ⟨fun v hv => (by cases hv), fun er her => (by cases her; rfl)⟩
+      | ok y =>
+        obtain ⟨c2, h2, hc2⟩ := (ihb c1 hc1).1 y hb
+        simp only [h2, bind_ok]
+        cases hz : applyFunc e.P e.N f x y with
+        | error ez => exact ⟨fun v hv => (by cases hv), fun er her => (by cases her; rfl)⟩
+        | ok z => exact ⟨fun v hv => (by cases hv; exact ⟨c2, rfl, hc2⟩), fun er her => (by cases her)⟩
+
+theorem parseListC_eq (deriv : Bool) (e : Env) (ts : List OpTree) : ∀ c, CacheOk deriv e c →
+    parseListC deriv e ts c = ts.mapM (parse deriv e) := by
+  induction ts with
+  | nil => intro c _; rfl
+  | cons t ts ih =>
+    intro c hc
+    simp only [parseListC, List.mapM_cons]
+    cases ht : parse deriv e t with
+    | error er => simp only [(parseC_spec deriv e t c hc).2 er ht, bind_err]
+    | ok v =>
+      obtain ⟨c1, h1, hc1⟩ := (parseC_spec deriv e t c hc).1 v ht
+      simp only [h1, bind_ok, ih c1 hc1]
+
+/-- `mapM f` followed by `mapM g` succeeds exactly when `mapM (f then g)` does, with the same result -/
+theorem mapM_comp_ok {α β γ : Type} (f : α → R β) (g : β → R γ) (ts : List α) : ∀ vs : List γ,
+    ((ts.mapM f >>= fun xs => xs.mapM g) = .ok vs) ↔ (ts.mapM (fun t => f t >>= g) = .ok vs) := by
+  induction ts with
+  | nil => intro vs; simp [List.mapM_nil]
+  | cons t ts ih =>
+    intro vs
+    simp only [List.mapM_cons]
+    cases hf : f t with
+    | error er => simp
+    | ok x =>
+      simp only [bind_ok]
+      cases hm : ts.mapM f with
+      | error er =>
+        have hno : ∀ ws, ts.mapM (fun t => f t >>= g) ≠ .ok ws := by
+          intro ws hws
+          have := (ih ws).2 hws
+          simp [hm] at this
+        cases hg : g x with
+        | error eg => simp
+        | ok y =>
+          simp only [bind_err, bind_ok]
+          cases hr : ts.mapM (fun t => f t >>= g) with
+          | error e2 => simp
+          | ok ws => exact absurd hr (hno ws)
+      | ok xs =>
+        simp only [bind_ok, pure_eq_ok, List.mapM_cons]
+        cases hg : g x with
+        | error eg => simp
+        | ok y =>
+          simp only [bind_ok]
+          have ih' := ih
+          simp only [hm, bind_ok] at ih'
+          cases hx : xs.mapM g with
+          | error e1 =>
+            cases hr : ts.mapM (fun t => f t >>= g) with
+            | error e2 => simp
+            | ok ws => have := (ih' ws).2 hr; simp [hx] at this
+          | ok ys =>
+            have := (ih' ys).1 hx
+            simp [this]
 
 end PorepyVerif.C02
